@@ -20,6 +20,7 @@ pub mod yaml;
 pub mod yaml_gen;
 pub mod checkvar;
 pub mod editdoc;
+pub mod convert_case;
 
 pub struct Ctx {
   pub seed: u64,
@@ -75,6 +76,7 @@ pub fn run(unit: &str, ctx: &Ctx, rng: &mut Rng, o: &mut Out) -> bool {
     "yaml_scan" => yaml::yaml_scan(ctx, rng, o),
     "yaml_child" => yaml::child_main(),
     "c12_accept" => checkvar::c12_accept(ctx, rng, o),
+    "convert_case" => convert_case::convert_case(ctx, rng, o),
     _ => return false,
   }
   true
@@ -122,6 +124,9 @@ pub fn exec_op(op: &str, a: &serde_json::Value) -> serde_json::Value {
     return v;
   }
   if let Some(v) = checkvar::exec(op, a) {
+    return v;
+  }
+  if let Some(v) = convert_case::exec(op, a) {
     return v;
   }
   serde_json::json!({"harness_error": format!("op {op} is not replayable stand-alone")})
